@@ -87,6 +87,11 @@ FnDefs ==
     IFn("snd", <<Param("a", T2), Param("b", T2)>>, <<T2>>, BlkE(<<>>, V("b"))),
     IFn("rot", <<Param("a", T2), Param("b", T2), Param("c", T2)>>, <<TArr(T2, 3)>>, BlkE(<<>>, EArray(<<V("c"), V("a"), V("b")>>))),
     IFn("konst", <<>>, <<T2>>, BlkE(<<>>, Dec(2))),
+    \* more than three parameters of different types: the balanced layout of the argument tuple matters
+    IFn("four", <<Param("a", T1), Param("b", T2), Param("c", TBool), Param("d", T2)>>, <<TTup(<<T2, T1>>)>>,
+        BlkE(<<>>, ETuple(<<V("d"), V("a")>>))),
+    IFn("five", <<Param("a", T2), Param("b", T1), Param("c", T2), Param("d", TBool), Param("e", T1)>>, <<TTup(<<T1, T2>>)>>,
+        BlkE(<<>>, ETuple(<<V("e"), EMatch(V("d"), <<Arm(MFalse, V("a")), Arm(MTrue, V("c"))>>)>>))),
     IFn("shadow", <<Param("a", T2), Param("b", T2)>>, <<T2>>, BlkE(<<SLet(PId("a"), T2, V("b"))>>, V("a"))),
     IFn("twice", <<Param("a", T2)>>, <<TTup(<<T2, T2>>)>>, BlkE(<<>>, ETuple(<<ECall(CFn("idf"), <<V("a")>>), ECall(CFn("konst"), <<>>)>>))),
     IFn("chk", <<Param("a", TBool)>>, <<>>, Blk(<<SExpr(AssertE(V("a")))>>)),
@@ -103,6 +108,9 @@ FnCalls(ctx) ==
   \cup {[t |-> T2, e |-> ECall(CFn(f), <<a, b>>)] : f \in {"fst", "snd", "shadow", "deep"}, a \in L2, b \in L2}
   \cup {[t |-> TArr(T2, 3), e |-> ECall(CFn("rot"), <<a, b, Dec(3)>>)] : a \in L2, b \in L2}
   \cup {[t |-> T2, e |-> ECall(CFn("konst"), <<>>)]}
+  \cup {[t |-> TTup(<<T2, T1>>), e |-> ECall(CFn("four"), <<a, b, c, Dec(1)>>)] : a \in L1, b \in L2, c \in LB}
+  \cup {[t |-> TTup(<<T2, T1>>), e |-> ECall(CFn("four"), <<Dec(1), Dec(2), EBool(FALSE), d>>)] : d \in L2}
+  \cup {[t |-> TTup(<<T1, T2>>), e |-> ECall(CFn("five"), <<a, Dec(0), Dec(1), d, b>>)] : a \in L2, b \in L1, d \in LB}
   \cup {[t |-> TTup(<<T2, T2>>), e |-> ECall(CFn("twice"), <<a>>)] : a \in L2}
   \cup {[t |-> TUnit, e |-> ECall(CFn("chk"), <<a>>)] : a \in LB}
   \cup {[t |-> T2, e |-> ECall(CFn("sel"), <<c, a, b>>)] : c \in LB, a \in L2, b \in L2}
@@ -148,7 +156,8 @@ FnCtxs == {<<<<"A", T2, "a">>>>, <<<<"A", T2, "a">>, <<"B", T2, "b">>>>, <<<<"A"
 
 MCFamilies == {[kind |-> "form", decls |-> d, ty |-> t] : d \in Ctxs, t \in ResultTypes}
               \cup {[kind |-> "fn", decls |-> d, f |-> fname] : d \in FnCtxs,
-                       fname \in {"idf", "swap", "fst", "snd", "shadow", "deep", "rot", "konst", "twice", "chk", "sel", "force"}}
+                       fname \in {"idf", "swap", "fst", "snd", "shadow", "deep", "rot", "konst", "twice", "chk", "sel", "force",
+                                  "four", "five"}}
               \cup {[kind |-> "discard", g |-> i] : i \in 0..3}
 
 DiscardSeq == SetToSeq(DiscardStmts)
